@@ -19,7 +19,7 @@ LEAVES = [
     ("Browser", "rescue_next", _B, "QueryScheduler.schedule_rescue_query", ("assign", "next_query_time", 0),
      [P("now_millis", "now"), P("additional_wait", "additional_wait")], "num", {}),
     # next_query_time >= query.expire_time_millis  -> give up
-    ("Browser", "rescue_stop", _B, "QueryScheduler.schedule_rescue_query", ("if", "next_query_time >= query.expire_time_millis", 0),
+    ("Browser", "rescue_stop", _B, "QueryScheduler.schedule_rescue_query", ("if", "next_query_time", "query.expire_time_millis", 0),
      [P("next_query_time", "next_query_time"), P("query.expire_time_millis", "expire")], "bool", {}),
     # start-up
     ("Browser", "startup_first", _B, "QueryScheduler._process_startup_queries", ("arg", "async_send_ready_queries", 0, 0),
@@ -30,7 +30,7 @@ LEAVES = [
     ("Browser", "startup_backoff_s", _B, "QueryScheduler._process_startup_queries", ("arg", "call_later", 0, 0),
      [P("self._startup_queries_sent", "sent")], "num", {}),
     # ready pass
-    ("Browser", "ready_not_due", _B, "QueryScheduler._process_ready_types", ("if", "query.when_millis > end_time_millis", 0),
+    ("Browser", "ready_not_due", _B, "QueryScheduler._process_ready_types", ("if", "query.when_millis", "end_time_millis", 0),
      [P("query.when_millis", "when"), P("end_time_millis", "end_time")], "bool", {}),
     ("Browser", "next_time", _B, "QueryScheduler._process_ready_types", ("assign", "next_time_millis", 0),
      [P("now_millis", "now"), P("self._min_time_between_queries_millis", "min_delay")], "num", {}),
